@@ -64,9 +64,13 @@ CHECKS["C01"] = {
             "source: at byte level TLC's own Decode of the block equals the source, at field level the triples sum to the length, "
             "literal runs and matches equal the source slices (lemma DecodeBySeqs model-checked in MC_LZ4Block) and the real "
             "decoder returned the source. Histories come from TLC (fresh/reused/pooled objects), inputs from exhaustive short "
-            "strings and seeded families aimed at the 64 KiB window edge.",
-    "design_ref": "DESIGN.md section 5 (C01)",
-    "note": "Sources up to 4 MiB; HC depths sampled from 0,1,2,3,16, the nine named levels, 65537, 2^31-1.",
+            "strings and seeded families aimed at the 64 KiB window edge. The promise is judged against the code's own "
+            "CompressBlockBound: BoundLemma.tla (TLC to n = 300000, Apalache for every n) shows the literal-only worst case fits the "
+            "specified bound; the code's bound is evaluated on a grid of lengths up to 2^30, every length where it is below the worst "
+            "case becomes an executed case, and incompressible sources of 1 MiB and more are compressed into exactly the code's bound. "
+            "FastTable.tla / FastTableInd.tla cover the 16-bit position table of the fast compressor.",
+    "design_ref": "DESIGN.md section 5 (C01), 12.9",
+    "note": "Sources up to 4 MiB (incompressible: 3 MiB quick, 48 MiB thorough); HC depths sampled from 0,1,2,3,16, the nine named levels, 65537, 2^31-1.",
 }
 CHECKS["C10"] = {
     "technique": _CMP_TECH + "; StrictValid / StrictValidP predicates of LZ4Block.tla",
@@ -246,7 +250,7 @@ CHECKS["C20"] = {
 
 CHECKS["C08"] = {
     "technique": "TLA+ models of the concurrent Writer and Reader pipelines with Go channel semantics and buffer ownership (PipelineW.tla, "
-                 "PipelineR.tla), model-checked over all interleavings (safety, deadlock, liveness); hook-event traces of real runs under "
+                 "PipelineWL.tla for several lives of one Writer, PipelineR.tla), model-checked over all interleavings (safety, deadlock, liveness); hook-event traces of real runs under "
                  "seeded schedule perturbation validated by TLC (PipelineW_Trace, PipelineR_Trace); race detector, pool poisoning, goroutine "
                  "scan and watchdog as sensors judged by the trace specifications",
     "text": "TLC explores every interleaving of producer, per-block workers and ordering goroutine (Writer) and of reader, decoders, "
@@ -257,6 +261,7 @@ CHECKS["C08"] = {
             "behaviours of these models - FIFO discipline, write/delivery order, shutdown handshake, buffers returned only after the "
             "orderer closed the block - and their sensors must be silent: no race, no poisoned-buffer write, no goroutine left after "
             "Close / end of stream / source or decoding error, no hang, correct result.",
-    "design_ref": "DESIGN.md section 5 (C08)",
-    "note": "The code's schedules are sampled, the model's are exhaustive; gate replay of TLC schedules into the code is not built.",
+    "design_ref": "DESIGN.md section 5 (C08), 12.2, 12.9",
+    "note": "The code's schedules are sampled, the model's are exhaustive; TLC schedules of failure-free behaviours are forced onto the "
+            "goroutines through the blocking hook (gate replay); D25 (goroutine leak) was first a TLC counterexample.",
 }
